@@ -32,11 +32,11 @@ ANCHORS = [
     "raggedshape.py::RaggedView2._calculate_lengths",
     "raggedshape.py::build_indices",
 ]
-RECVS = ["fresh", "lazyrows", "lazycols+2", "lazycols-1", "lazychain", "ufunc", "astype", "deepcopy", "pickle", "copy-of-lazy", "readonly", "saveload", "concat", "fromnumpy", "fromnumpy-F", "tonumpy-called", "subclass", "was-argument", "byteswapped", "unsafe", "ctype-alias", "own-shape", "lazytail-parent-used"]
+RECVS = ["fresh", "lazyrows", "lazycols+2", "lazycols-1", "lazychain", "ufunc", "astype", "deepcopy", "pickle", "copy-of-lazy", "readonly", "saveload", "concat", "fromnumpy", "fromnumpy-F", "tonumpy-called", "subclass", "was-argument", "byteswapped", "unsafe", "ctype-alias", "own-shape", "lazytail-parent-used", "lens-refilled", "rslice-result"]
 FLOOR_TAGS = ["recv:" + r_ for r_ in RECVS] + ["mask-as-list", "r:int", "r:slice+1", "r:slice+k", "r:slice-", "r:list", "r:array", "r:mask", "r:ell",
               "c:none", "c:int+", "c:int-", "c:slice+1", "c:slice+k", "c:slice-",
               "must-refuse", "sel-has-empty-row", "ellipsis-padded", "e-first", "e-last", "e-mid", "e-consec", "allempty", "norows"]
-FLOOR_MONITORS = ["c02:model-compare", "c02:refusal", "c02:arguments-unchanged", "c02:after-refusal", "c02:index-object-reused", "c02:refusal-on-derived", "c02:ask-again-after-read"]
+FLOOR_MONITORS = ["c02:model-compare", "c02:refusal", "c02:arguments-unchanged", "c02:after-refusal", "c02:index-object-reused", "c02:refusal-on-derived", "c02:ask-again-after-read", "c02:second-question"]
 FP_STRICT = True       # a floating-point event inside the library that the dense computation does not have is a violation (shard.FpMonitor)
 N_RANDOM = {"quick": 12000, "thorough": 400000}
 
@@ -149,6 +149,21 @@ def build_receiver(recv, flat, lens):
         prow = [r[::-1] for r in rows]
         parent = RA(np.concatenate(prow) if prow else flat[:0], [len(r) for r in prow])
         return parent[:, ::-1], parent
+    if recv == "lens-refilled":
+        # the row lengths are handed over as the caller's own int64 vector, which he refills for his next batch right after the construction
+        L_ = np.array(list(lens), dtype=np.int64)
+        x = RA(flat.copy(), L_)
+        if len(L_):
+            L_[...] = L_[::-1] + 1
+            L_[0] = 0
+        return x, None
+    if recv == "rslice-result":
+        # the result of the public ragged_slice: every wanted row is cut out of a longer row with junk on both sides
+        prow = [np.concatenate([junk(2), r, junk(1)]) for r in rows]
+        parent = RA(np.concatenate(prow) if prow else flat[:0], [len(r) for r in prow])
+        if not len(prow):
+            return RA(flat.copy(), list(lens)), None
+        return CTX.lib.ragged_slice(parent, np.full(len(prow), 2, dtype=np.int64), np.array([2 + len(r) for r in rows], dtype=np.int64)), None
     if recv == "lazytail-parent-used":
         # every parent row is one junk cell followed by the wanted row (so the parent has no empty row at all); the parent is reduced, read and compared
         # BEFORE the selection parent[:, 1:] is taken -- whatever the parent learnt about itself must not be taken for a fact about the selection
@@ -307,6 +322,24 @@ def run(case):
         return violated("reading ra[%s] changed the array" % short(idx), tags + ["read-mutates"])
     if parent is not None and peek(parent) != parent_before:
         return violated("reading ra[%s] changed the array it was derived from" % short(idx), tags + ["read-mutates"])
+    # a second, different question to the same object, asked while an unmaterialised receiver is still unmaterialised (what the first answer
+    # remembered about the object -- a shortest row, a view -- must not decide the second)
+    if case.get("then") is not None:
+        rs2, cs2, has2 = case["then"]
+        idx2 = model.make_index(rs2, cs2, has2)
+        CTX.tick("c02:second-question")
+        try:
+            k2, cells2 = model.select_cells(lens, rs2, cs2, has2)
+            exp2 = (k2, model.cells_to_values(k2, cells2, pyrows))
+        except model.Refused:
+            exp2 = None
+        o2 = attempt(lambda: observe(ra[idx2]))
+        if exp2 is None:
+            if o2.ok and recv != "unsafe":
+                return violated("after ra[%s], ra[%s] was accepted although the index does not exist: %s" % (short(idx), short(idx2), short(o2.value[1])), tags + ["second-question"])
+        elif not o2.ok or o2.value != exp2:
+            return violated("after ra[%s], ra[%s] on the same object gave %s, the list of rows gives %s" % (short(idx), short(idx2), repr(o2) if not o2.ok else short(o2.value[1]), short(exp2[1])),
+                            tags + ["second-question"], got=repr(o2) if not o2.ok else o2.value, expected=exp2)
     # the same question again after the array has been read in full (which materialises an unmaterialised receiver in place): what the first
     # answer left behind on the object (a remembered view, offsets into the old buffer) must not show
     if sum(lens) <= 5000:
@@ -349,6 +382,16 @@ def directed():
         yield c
     for c in tall_narrow_cases():
         yield c
+    # two questions to one (possibly still unmaterialised) object: a column of all rows first -- which only exists as far as the shortest row goes -- then a
+    # column of some of the LONGER rows that the shortest row does not have
+    for lens in ([1, 5, 4, 6], [2, 6, 6, 3, 7], [4, 1, 5, 5]):
+        short_ = min(lens)
+        longer = [i for i, l in enumerate(lens) if l > short_]
+        for recv in ("fresh", "lazycols+2", "lazycols-1", "lazychain", "lazyrows", "lazytail-parent-used", "ufunc"):
+            for first in ((slice(None), 0, True), (Ellipsis, short_ - 1, True), (slice(None), -1, True)):
+                for rs2 in (list(longer), np.array([i in longer for i in range(len(lens))]), slice(min(longer), max(longer) + 1) if longer == list(range(min(longer), max(longer) + 1)) else list(longer[::-1])):
+                    for j in (short_, short_ + 1, -short_ - 1, min(lens[i] for i in longer) - 1):
+                        yield dict(mk_case(lens, first[0], first[1], first[2], recv), then=[rs2, j, True])
     # negative column numbers carried by a narrow numpy integer type, on rows longer than that type can count (row length + column leaves the type)
     lens = [3, 300, 40000, 130, 2]
     for rs in (1, 2, 3, [1, 2], [3, 1, 2], slice(1, 4), np.array([2, 1])):
@@ -633,16 +676,23 @@ def random_case(rng, tier):
         rs = int(rs)  # a 0-d array next to a column selector is outside the statement's grammar (DESIGN 7.4)
     maxl = max(lens) if lens else 0
     recv = rng.choice(RECVS) if rng.random() < 0.5 else "fresh"
+    then = None
+    if rng.random() < 0.3:
+        rs2 = random_selector(rng, n)
+        if isinstance(rs2, np.ndarray) and rs2.ndim == 0:
+            rs2 = int(rs2)
+        u2 = rng.random()
+        then = [rs2, None, False] if u2 < 0.3 else ([rs2, rng.randint(-maxl - 1, maxl) if (lens and max(lens)) else 0, True] if u2 < 0.65 else [rs2, gen.gen_slice(rng, max(lens) if lens else 0, far=True), True])
     if ck == "none":
-        return mk_case(lens, rs, recv=recv)
+        return dict(mk_case(lens, rs, recv=recv), then=then)
     pad = rng.choice([1, 2, 3]) if rng.random() < 0.08 else 0
     if ck == "int":
         c = rng.randint(-maxl - 1, maxl)
         if rng.random() < 0.03:
             c = rng.choice([2 ** 32 + c, -2 ** 32 + c])
             return dict(mk_case(lens, rs, rng.choice([c, np.int64(c)]), True, recv), ellpad=pad)
-        return dict(mk_case(lens, rs, gen.np_int(rng, c), True, recv), ellpad=pad)
-    return dict(mk_case(lens, rs, gen.gen_slice(rng, maxl, far=True), True, recv), ellpad=pad)
+        return dict(mk_case(lens, rs, gen.np_int(rng, c), True, recv), ellpad=pad, then=then)
+    return dict(mk_case(lens, rs, gen.gen_slice(rng, maxl, far=True), True, recv), ellpad=pad, then=then)
 
 
 def classify(case, res):
